@@ -34,6 +34,8 @@ double __CPROVER_uninterpreted_sqrt(double);
 #define U_mul(a,b) __CPROVER_uninterpreted_mul(a,b)
 #define U_div(a,b) __CPROVER_uninterpreted_div(a,b)
 #define U_sqrt(x)  __CPROVER_uninterpreted_sqrt(x)
+/* bit identity (distinguishes +0/-0, equates a NaN with itself) */
+static inline _Bool same_bits(double a, double b) { union { double d; unsigned long long u; } x, y; x.d = a; y.d = b; return x.u == y.u; }
 #define NOTNAN(x)  (!__CPROVER_isnand(x))
 #define FINITE(x)  (!__CPROVER_isnand(x) && !__CPROVER_isinfd(x))
 #define BIG 1e150                       /* |x| <= BIG  ==>  x*x is finite (1e300 < DBL_MAX) */
@@ -41,7 +43,7 @@ double __CPROVER_uninterpreted_sqrt(double);
 /* square(x) = x*x : non-negative (possibly +inf) for non-NaN x, exactly 0 for x==0, finite for |x|<=1e150 */
 double vf_sq(double x)
 __CPROVER_assigns()
-__CPROVER_ensures(__CPROVER_return_value == U_sq(x) || (__CPROVER_isnand(__CPROVER_return_value) && __CPROVER_isnand(U_sq(x))))
+__CPROVER_ensures(same_bits(__CPROVER_return_value, U_sq(x)))
 __CPROVER_ensures(NOTNAN(x) ==> __CPROVER_return_value >= 0.0)
 __CPROVER_ensures(x == 0.0 ==> __CPROVER_return_value == 0.0)
 __CPROVER_ensures((-BIG <= x && x <= BIG) ==> __CPROVER_return_value <= 1e301)
@@ -49,7 +51,7 @@ __CPROVER_ensures((-BIG <= x && x <= BIG) ==> __CPROVER_return_value <= 1e301)
 /* a*b : sign lemma; product of non-negative finite operands is non-negative and not NaN; x*0 == 0 for finite x */
 double vf_mul(double a, double b)
 __CPROVER_assigns()
-__CPROVER_ensures(__CPROVER_return_value == U_mul(a, b) || (__CPROVER_isnand(__CPROVER_return_value) && __CPROVER_isnand(U_mul(a, b))))
+__CPROVER_ensures(same_bits(__CPROVER_return_value, U_mul(a, b)))
 __CPROVER_ensures((FINITE(a) && FINITE(b)) ==> NOTNAN(__CPROVER_return_value))
 __CPROVER_ensures((a >= 0.0 && b >= 0.0 && FINITE(a) && FINITE(b)) ==> __CPROVER_return_value >= 0.0)
 __CPROVER_ensures((0.0 <= a && a <= BIG && 0.0 <= b && b <= BIG) ==> __CPROVER_return_value <= 1e301)
@@ -58,7 +60,7 @@ __CPROVER_ensures(((a == 0.0 && FINITE(b)) || (b == 0.0 && FINITE(a))) ==> __CPR
 /* a/b : only "not NaN for finite a and finite b != 0" is used (doUpdate) */
 double vf_div(double a, double b)
 __CPROVER_assigns()
-__CPROVER_ensures(__CPROVER_return_value == U_div(a, b) || (__CPROVER_isnand(__CPROVER_return_value) && __CPROVER_isnand(U_div(a, b))))
+__CPROVER_ensures(same_bits(__CPROVER_return_value, U_div(a, b)))
 __CPROVER_ensures((NOTNAN(a) && FINITE(b) && b != 0.0 && !(__CPROVER_isinfd(a) && __CPROVER_isinfd(b))) ==> NOTNAN(__CPROVER_return_value))
 ;
 /* sqrt(a/b) for 0 <= a < b (b may be +inf, a finite): lies in [0,1]  (fl(a/b) in [0,1] by monotone
@@ -66,14 +68,14 @@ __CPROVER_ensures((NOTNAN(a) && FINITE(b) && b != 0.0 && !(__CPROVER_isinfd(a) &
 double vf_sqrt_ratio(double a, double b)
 __CPROVER_requires(0.0 <= a && a < b && !__CPROVER_isinfd(a))
 __CPROVER_assigns()
-__CPROVER_ensures(__CPROVER_return_value == U_sqrt(U_div(a, b)))
+__CPROVER_ensures(same_bits(__CPROVER_return_value, U_sqrt(U_div(a, b))))
 __CPROVER_ensures(0.0 <= __CPROVER_return_value && __CPROVER_return_value <= 1.0)
 ;
 /* x*s for 0 <= s <= 1: magnitude does not grow, sign kept (or result is a zero) */
 double vf_scale(double x, double s)
 __CPROVER_requires(0.0 <= s && s <= 1.0 && FINITE(x))
 __CPROVER_assigns()
-__CPROVER_ensures(__CPROVER_return_value == U_mul(x, s))
+__CPROVER_ensures(same_bits(__CPROVER_return_value, U_mul(x, s)))
 __CPROVER_ensures(x >= 0.0 ==> (0.0 <= __CPROVER_return_value && __CPROVER_return_value <= x))
 __CPROVER_ensures(x <= 0.0 ==> (x <= __CPROVER_return_value && __CPROVER_return_value <= 0.0))
 ;
